@@ -9,3 +9,6 @@ open LasModel.Props.C08
 #print axioms C08_norm_identity
 #print axioms C08_raw
 #print axioms C08_factory_idem
+#print axioms C08_classLookup_idem
+#print axioms C08_norm_idem_all
+#print axioms C08_factory_idem_all
